@@ -212,6 +212,10 @@ def tolist(a):
 
 def run(ctx):
     ctx.source_hash("sigpy/wavelet.py", "sigpy/util.py", "sigpy/linop.py")
+    # tie by translation (DESIGN 2.8): gen/Gen_wavelet.v is regenerated from wavelet.py / linop.py (translate_all job "wavelet") and
+    # compiled; its lemmas gen_*_ok state generated == hand model (model/Wavelet.v, model/OpaqueWavelet.v).  notes/translate_wavelet.md
+    from tools import translate_wavelet
+    tie_broken = translate_wavelet.tie(ctx)  # obligations "translate:sigpy/wavelet.py (...); sigpy/linop.py (...)", "tie:generated == hand model (...)"
     t0 = time.time()
     proof_ok = ctx.prove("Prop_C10.v")
     t1 = time.time()
@@ -296,8 +300,8 @@ def run(ctx):
                        "observed": tolist(d["y"] if cc["which"] == "fwt" else d["z"]),
                        "expected": "model/Wavelet.v: centred even zero-padding, pywt result passed through, centred crop"},
                       found_input=bool(d["bad"]), signature="C10:" + cls)
-    if (not proof_ok or not corr_ok) and not ctx.violations:
-        broken = getattr(ctx, "broken_proof", {"theorem": "corr:coq-run", "log": "; ".join(ctx.notes)[-1500:]})
+    if (not proof_ok or not corr_ok or tie_broken) and not ctx.violations:
+        broken = getattr(ctx, "broken_proof", tie_broken or {"theorem": "corr:coq-run", "log": "; ".join(ctx.notes)[-1500:]})
         ctx.violation("proof obligation no longer checks: %s" % broken.get("theorem"),
                       {"kind": "proof", "broken": broken}, found_input=False, signature="C10:proof")
     ctx.trusted += TRUSTED
@@ -336,7 +340,11 @@ TRUSTED = [
     "PyWavelets wavedecn/waverecn(mode='zero') + coeffs_to_array/array_to_coeffs for haar/dbN/symN/coifN on even-length boxes: "
     "Wr(W z) = z, <W a, W b> = <a, b>, <W a, c> = <a, Wr c> (oracle hypotheses; validated numerically by this run on every wavelet)",
     "hand model coq/model/Wavelet.v (+ model/Rearrange.v resize), tied by this run's exact correspondence; the recorder wraps "
-    "pywt.wavedecn/waverecn inside the check process only (no source hook)",
+    "pywt.wavedecn/waverecn inside the check process only (no source hook) AND by translation: tools/translate_wavelet.py regenerates "
+    "get_wavelet_shape / fwt / iwt and Wavelet / InverseWavelet __init__ / _apply from the source text on every run (gen/Gen_wavelet.v) with "
+    "lemmas generated == hand model at the call-by-call PyWavelets environment of model/WaveletPywt.v; trusted there: the translator's "
+    "reading of the accepted Python fragment (notes/translate_wavelet.md: arrays = (shape, data), coefficient structure independent of "
+    "the values, PyWavelets signatures and defaults, device transfers dropped, input.shape == ishape inside _apply)",
 ]
 PROVED = ["see coq/props/Prop_C10.v (theorem list in obligation_list)"]
 VALIDATED = ["the orthogonality / perfect-reconstruction of PyWavelets' filter banks in mode='zero' (oracle): tolerance 1e-7 (double), 1e-4 (single)",
